@@ -107,12 +107,24 @@ func runSelftests(prop, repo, verif string) map[string]any {
 					}
 					order = append(order, ed.File)
 				}
-				if bytes.Count(src, []byte(ed.Old)) != 1 {
+				// "§n/m§pattern": the pattern occurs m times (sibling functions with identical text), edit the n-th
+				oldPat, nth, of := ed.Old, 1, 1
+				if strings.HasPrefix(oldPat, "§") {
+					if _, err := fmt.Sscanf(oldPat, "§%d/%d§", &nth, &of); err == nil {
+						oldPat = oldPat[strings.Index(oldPat[2:], "§")+2+len("§"):]
+					}
+				}
+				if bytes.Count(src, []byte(oldPat)) != of {
 					res.outcome, res.note = "skipped", "pattern does not occur exactly once in the current source (source changed)"
 					skipped = true
 					break
 				}
-				content[ed.File] = bytes.Replace(src, []byte(ed.Old), []byte(ed.New), 1)
+				at := 0
+				for k := 1; k < nth; k++ {
+					at += bytes.Index(src[at:], []byte(oldPat)) + len(oldPat)
+				}
+				at += bytes.Index(src[at:], []byte(oldPat))
+				content[ed.File] = append(append(append([]byte{}, src[:at]...), []byte(ed.New)...), src[at+len(oldPat):]...)
 			}
 			if !skipped {
 				for _, f := range order {
